@@ -33,6 +33,10 @@ Proof.
 Qed.
 Lemma sub_lor a b S : sub a S -> sub b S -> sub (Z.lor a b) S.
 Proof. unfold sub; intros. now rewrite Z.land_lor_distr_l, H, H0. Qed.
+Lemma sub_land x S X : sub x S -> sub (Z.land x X) S.
+Proof.
+  unfold sub; intros H. rewrite <- Z.land_assoc, (Z.land_comm X S), Z.land_assoc, H. reflexivity.
+Qed.
 Lemma sub_0 S : sub 0 S.
 Proof. apply Z.land_0_l. Qed.
 Lemma sub_refl S : sub S S.
@@ -81,6 +85,22 @@ Proof.
   rewrite (sub_keep m RM _ Hm) by (vm_compute; reflexivity).
   rewrite (sub_keep fn R24 _ (sub_low24 fn Hfn)) by (vm_compute; reflexivity).
   rewrite (sub_keep ff RF _ Hff) by (vm_compute; reflexivity).
+  reflexivity.
+Qed.
+
+(* clearing the true-colour marker touches the marker only *)
+Lemma pack_clear m fn ff bn bf : PackOK m fn ff bn bf ->
+  Z.land (pack m fn ff bn bf) (Z.lnot HIGH_TRUE_COLOR) = pack (Z.land m (Z.lnot HIGH_TRUE_COLOR)) fn ff bn bf.
+Proof.
+  intros OK.
+  assert (OK' : PackOK (Z.land m (Z.lnot HIGH_TRUE_COLOR)) fn ff bn bf)
+    by (destruct OK; constructor; auto using sub_land).
+  rewrite (pack_flat _ _ _ _ _ OK), (pack_flat _ _ _ _ _ OK'). destruct OK as [Hm Hfn Hff Hbn Hbf].
+  rewrite !Z.land_lor_distr_l.
+  rewrite (sub_keep fn R24 _ (sub_low24 fn Hfn)) by (vm_compute; reflexivity).
+  rewrite (sub_keep ff RF _ Hff) by (vm_compute; reflexivity).
+  rewrite (sub_keep _ RS _ (sub_shift bn Hbn)) by (vm_compute; reflexivity).
+  rewrite (sub_keep bf RB _ Hbf) by (vm_compute; reflexivity).
   reflexivity.
 Qed.
 
@@ -184,6 +204,9 @@ Definition fgflag (k : kind) : Z :=
   match k with KNone => 0 | KBasic => FG_BASIC_COLOR | KHigh => FG_HIGH_COLOR | KTrue => FG_TRUE_COLOR end.
 Definition bgflag (k : kind) : Z :=
   match k with KNone => 0 | KBasic => BG_BASIC_COLOR | KHigh => BG_HIGH_COLOR | KTrue => BG_TRUE_COLOR end.
+Definition is_basic (k : kind) : bool := match k with KBasic => true | _ => false end.
+Definition is_high (k : kind) : bool := match k with KHigh => true | _ => false end.
+Definition is_true (k : kind) : bool := match k with KTrue => true | _ => false end.
 (* the accumulated [flags] of __set_foreground *)
 Definition F (ss : sset) (k : kind) : Z := Z.lor (enc ss) (fgflag k).
 
@@ -218,6 +241,13 @@ Proof.
   repeat (destruct H as [H|H]; [injection H as <- <-; all_ss ss; destruct k; vm_compute; reflexivity|]).
   destruct H.
 Qed.
+
+(* the values of the kind bits *)
+Lemma F_val ss k :
+  Z.land (F ss k) FG_BASIC_COLOR = bz (is_basic k) FG_BASIC_COLOR /\
+  Z.land (F ss k) FG_HIGH_COLOR = bz (is_high k) FG_HIGH_COLOR /\
+  Z.land (F ss k) FG_TRUE_COLOR = bz (is_true k) FG_TRUE_COLOR.
+Proof. all_ss ss; destruct k; vm_compute; repeat split; reflexivity. Qed.
 
 Lemma masks_in_RF :
   sub FG_BASIC_COLOR RF /\ sub FG_HIGH_COLOR RF /\ sub FG_TRUE_COLOR RF /\ sub BOLD RF /\ sub ITALICS RF /\
